@@ -106,3 +106,10 @@ package mapping
 //@   serves C19 C13 C02
 //@   requires MapOK(this)
 //@   ensures result == MEq(this, other)
+
+// ToProto records kind, base and offset of the mapping (C19/C09).
+//@ func IndexMapping.ToProto
+//@   serves C19 C09
+//@   requires MapOK(this)
+//@   ensures result != nil && fresh(result) && result.Gamma == MGamma(this) && result.IndexOffset == MOffset(this)
+//@   ensures kind: (is(this, *LogarithmicMapping) ==> result.Interpolation == sketchpb.IndexMapping_NONE) && (is(this, *LinearlyInterpolatedMapping) ==> result.Interpolation == sketchpb.IndexMapping_LINEAR) && (is(this, *CubicallyInterpolatedMapping) ==> result.Interpolation == sketchpb.IndexMapping_CUBIC)
